@@ -71,6 +71,9 @@ func (m *Mux) NewEndpoint(matchFunc MatchFunc) *Endpoint {
 	endpoint.buffer.SetLimitSize(maxBufferSize)
 
 	m.lock.Lock()
+	// Deliver the queued packets before the endpoint becomes visible to
+	// dispatch, so that a packet arriving from now on cannot overtake them.
+	m.flushPendingPackets(endpoint, matchFunc)
 	m.endpoints[endpoint] = matchFunc
 	m.lock.Unlock()
 
@@ -202,6 +205,11 @@ func (m *Mux) handlePendingPackets(endpoint *Endpoint, matchFunc MatchFunc) {
 	m.lock.Lock()
 	defer m.lock.Unlock()
 
+	m.flushPendingPackets(endpoint, matchFunc)
+}
+
+// flushPendingPackets must be called with m.lock held.
+func (m *Mux) flushPendingPackets(endpoint *Endpoint, matchFunc MatchFunc) {
 	pendingPackets := make([][]byte, 0, len(m.pendingPackets))
 	for _, buf := range m.pendingPackets {
 		if matchFunc(buf) {
